@@ -198,20 +198,33 @@ def _term_vars(t):
     return out
 
 
-def _point_value(name):
-    h = 0
+def _point_value(name, salt=0):
+    h = salt * 7919 + 17
     for ch in name:
         h = (h * 1000003 + ord(ch)) % 2147483629
-    return z3.Q((h % 97) - 48 or 5, (h // 97) % 7 + 2)
+    return z3.Q((h % 9973) - 4986 or 5, (h // 9973) % 89 + 2)
+
+
+def _proved_identical(t1, t0):
+    """is  t1 == t0  a (polynomial) identity?  decided by the solver, small budget."""
+    s = z3.Solver()
+    s.set('rlimit', 30_000_000)
+    s.set('timeout', 20_000)
+    s.add(t1 != t0)
+    return s.check() == z3.unsat
 
 
 def fingerprint(t):
     """value of a polynomial term at a fixed pseudo-random rational point (Schwartz-Zippel key); None if not numeric."""
     try:
         vs = _term_vars(t)
-        v = z3.simplify(z3.substitute(t, *[(x, _point_value(x.decl().name())) for x in vs])) if vs else z3.simplify(t)
-        if z3.is_rational_value(v):
-            return (v.numerator_as_long(), v.denominator_as_long())
+        key = []
+        for salt in (0, 1):
+            v = z3.simplify(z3.substitute(t, *[(x, _point_value(x.decl().name(), salt)) for x in vs])) if vs else z3.simplify(t)
+            if not z3.is_rational_value(v):
+                return None
+            key.append((v.numerator_as_long(), v.denominator_as_long()))
+        return tuple(key)
     except Exception:
         pass
     return None
@@ -220,9 +233,9 @@ def fingerprint(t):
 def _recip(b):
     """
     1/b as a fresh variable q with q*b == 1, b != 0 recorded (keeps every query polynomial).
-    Denominators that agree at a pseudo-random point are *conjectured* equal and share one
-    reciprocal variable; the conjecture b == b0 is recorded as a lemma that the solver must
-    discharge (core._decide), so sharing is sound.  This lets two separately generated programs
+    Denominators that agree at two pseudo-random points are *conjectured* equal; the conjecture
+    b == b0 is decided by the solver on the spot and only a proved identity shares the reciprocal
+    variable, so sharing is sound.  This lets two separately generated programs
     that divide by the same polynomial be compared without non-linear reasoning about q's.
     """
     c = cur()
@@ -230,9 +243,9 @@ def _recip(b):
     table = c.__dict__.setdefault('_recips', {})
     if fp is not None and fp in table:
         b0, q0 = table[fp]
-        if not b0.eq(b):
-            c.__dict__.setdefault('lemmas', []).append((b, b0))
-        return q0
+        if b0.eq(b) or _proved_identical(b, b0):
+            return q0
+        fp = None           # fingerprints collide but the terms are not proved identical: no sharing
     q = c.fresh('q')
     c.denominators.append(b)
     c.assume(b != 0, 'denominator != 0')
@@ -261,9 +274,9 @@ def _sqrt(x):
     table = c.__dict__.setdefault('_roots', {})
     if fp is not None and fp in table:
         x0, y0 = table[fp]
-        if not x0.eq(x):
-            c.__dict__.setdefault('lemmas', []).append((x, x0))
-        return y0
+        if x0.eq(x) or _proved_identical(x, x0):
+            return y0
+        fp = None
     y = c.fresh('r')
     c.radicands.append(x)
     c.assume(x >= 0, 'radicand >= 0')
